@@ -463,7 +463,9 @@ class Interp(object):
                         self.exec_stmt(st, env)
                     finally:
                         self.cur_module = saved
-            except Unsupported as e:
+            except (Unsupported, PyRaise) as e:
+                # a module-level statement the engine cannot evaluate (e.g. `__all__ = [... dir() ...]`): the names it binds
+                # are marked unmodelled; functions and classes of the module are unaffected
                 for n in _assigned_names([st]):
                     env.vars[n] = Unmodelled("%s.%s (%s)" % (mod.name, n, e))
                 if isinstance(st, (ast.Import, ast.ImportFrom)):
